@@ -156,7 +156,7 @@ def run(check, repo, tier):
         "Every public GCodeBuilder command is abstractly executed from a havocked state for every enum member / flag / "
         "presence of optional words; on each path ending in an in-scope exception the trace must contain no writer delivery "
         "and the final store of builder, GState and bounds table must equal the initial one. "
-        + ("Exhaustive path enumeration." if tier == "thorough" else "Quick tier: at most 2 non-default decisions per path."))
+        + ("Exhaustive path enumeration." if tier == "thorough" else "Quick tier: at most 3 non-default decisions per path."))
     check.assume("raise set: every exception except the DeviceError family / GscribError I/O wrapper and typeguard type errors")
     check.assume("interpolated shapes (g.trace.*) are sequences of move commands by design; each move is covered as a command of its own")
     check.assume("formatter number()/parameters() used through their contract: ValueError iff a numeric value is not finite (checked by C08)")
